@@ -20,7 +20,9 @@ LEVEL = 'exploration'
 RULE = ('(a) every sequence of operations up to the stated depth over a fixed alphabet of concrete operations (push, pop, pop(i), '
         'insert, remove, read, write, compound write, del, index_of, len, in for the list; read, write, compound write, del, '
         'get, get with default, keys, values, items, len, in, remove for the dict; indices 0, 1, -1, -2, 1.9, -1.5, 5, -7 and '
-        'keys "a", "1", 1, 1.0, 1.5, True, None) from an empty and a populated state, explored as a DFS (exhaustive; distinct '
+        'keys "a", "1", 1, 1.0, 1.5, True, None; empty list / dict literals evaluated repeatedly by a lambda body and by '
+        'repeated steps) from an empty state (plain parser) and a populated state (parser with a parse cache: every step text is '
+        'parsed once and its tree evaluated again), explored as a DFS (exhaustive; distinct '
         'by construction); (b) a Hypothesis RuleBasedStateMachine with generated values up to 60 steps. After every step: '
         'same observable result as the Python list/dict model with int()/str() casts, ParserError + unchanged container for '
         'missing key / out-of-range read / pop on empty, full container equality. Non-trivial: >= 3 steps with a write '
@@ -29,15 +31,15 @@ ASSUMPTIONS = ['failing writes (out-of-range write / compound write, wrong-typed
                'raise any Exception or be a no-op, as long as the container is unchanged',
                'remove()/in on dicts are only exercised with string keys (the statement lists the normalising paths)']
 
-_parser = None
+_parser = {}
 
 
-def parser():
-    global _parser
-    if _parser is None:
+def parser(cached=False):
+    """cached: a parser with a parse cache - every step text is parsed once and its tree evaluated again and again"""
+    if cached not in _parser:
         from smartquery import SqParser
-        _parser = SqParser()
-    return _parser
+        _parser[cached] = SqParser(parse_cache={}) if cached else SqParser()
+    return _parser[cached]
 
 
 def lit(v):
@@ -72,9 +74,11 @@ class State:
         self.D = copy.deepcopy(Dd)
         self.V = [[D(1)]]
         self.names = {'l': copy.deepcopy(L), 'd': copy.deepcopy(Dd), 'v': copy.deepcopy(self.V)}
+        self.cached = False
 
     def clone(self):
         s = State.__new__(State)
+        s.cached = self.cached
         s.L = copy.deepcopy(self.L)
         s.D = copy.deepcopy(self.D)
         s.names = copy.deepcopy(self.names)
@@ -236,6 +240,17 @@ def model_step(op, L, Dd, V=None):
         L.append(copy.deepcopy(V))
         V[0].append(D(7))
         exp = copy.deepcopy(L[-1])
+    elif name == 'freshl':
+        # every evaluation of a literal yields a new container
+        src = 'm = map([1, 2], q => [])\nm[0].push(7)\nm'
+        exp = [[D(7)], []]
+    elif name == 'freshd':
+        src = 'm = map([1, 2], q => {})\nm[0]["k"] = 1\nm'
+        exp = [{'k': D(1)}, {}]
+    elif name == 'rows':
+        src = 'l.push([])\nl[0 - 1].push(7)\nl[0 - 1]'
+        L.append([D(7)])
+        exp = [D(7)]
     elif name == 'sortd':
         src = 'd = sorted(d)'
         items = sorted(Dd.items())
@@ -279,7 +294,7 @@ def do_step(st, op):
     src, exp, experr, boundary = model_step(op, st.L, st.D, st.V)
     got, goterr = None, None
     try:
-        got = parser().eval(src, st.names)
+        got = parser(st.cached).eval(src, st.names)
     except ParserError:
         goterr = 'PE'
     except Exception as e:  # noqa
@@ -321,7 +336,7 @@ ALPHABET = (
      ('readd', 'a'), ('readd', D(1)), ('readd', '1'), ('readd', D('1.0')), ('readd', True), ('readd', 'None'),
      ('deld', 'a'), ('deld', D(1)), ('deld', D('1.0')), ('get', D(1)), ('getd', 'zz', D(2)), ('get', True),
      ('keys',), ('values',), ('items',), ('lend',), ('cwrited', 'a'), ('cwrited', D(1)), ('ind', 'a'), ('ind', '1'),
-     ('removed', '1'), ('dictlit', D(1), D(5)), ('dictlit', D('1.0'), D(6)), ('nestw', 'n'), ('nestl',), ('sortd',), ('copyd',)]
+     ('removed', '1'), ('dictlit', D(1), D(5)), ('dictlit', D('1.0'), D(6)), ('nestw', 'n'), ('nestl',), ('sortd',), ('copyd',), ('freshl',), ('freshd',), ('rows',)]
 )
 INITS = [([], {}), ([D(1), 'x'], {'a': D(1), '1': D(2)})]
 
@@ -341,6 +356,8 @@ def signature(op, msg):
 def run_case(case):
     L, Dd = core.dec(case['init'][0]), core.dec(case['init'][1])
     st = State(L, Dd)
+    st.cached = bool(case.get('cached'))
+    _parser.clear()
     for o in case['ops']:
         op = dec_op(o)
         msg, src, _ = do_step(st, op)
@@ -370,7 +387,7 @@ def dfs(st, depth, prefix, init, stats, first_ops=None):
         stats.case(nontrivial=nt, distinct_by_construction=True, classes=(f'dfs:depth{len(seq)}',),
                    sample={'init': core.enc(list(init)), 'ops': [str(o) for o in seq]} if nt and stats.evaluations % 9973 == 0 else None)
         if msg:
-            stats.fail(Failure(signature(op, msg), msg, {'init': core.enc(list(init)), 'ops': [enc_op(o) for o in seq]}))
+            stats.fail(Failure(signature(op, msg), msg, {'init': core.enc(list(init)), 'ops': [enc_op(o) for o in seq], 'cached': st.cached}))
             continue
         if depth > 1:
             dfs(s2, depth - 1, seq, init, stats)
@@ -388,6 +405,8 @@ class ContainerMachine(RuleBasedStateMachine):
         super().__init__()
         self.init = ([], {})
         self.st = State([], {})
+        _CTX['machines'] = _CTX.get('machines', 0) + 1
+        self.st.cached = _CTX['machines'] % 2 == 1
         self.ops = []
 
     def step(self, op):
@@ -397,7 +416,7 @@ class ContainerMachine(RuleBasedStateMachine):
         stats.add('machine_steps')
         if msg:
             sig = signature(op, msg)
-            f = Failure(sig, msg, {'init': core.enc([[], {}]), 'ops': [enc_op(o) for o in self.ops]})
+            f = Failure(sig, msg, {'init': core.enc([[], {}]), 'ops': [enc_op(o) for o in self.ops], 'cached': self.st.cached})
             stats.fail(f)
             if not any(core.sig_matches(p, sig) for p in _CTX['excluded']):
                 if _CTX['target'] is None:
@@ -504,6 +523,10 @@ class ContainerMachine(RuleBasedStateMachine):
     def nestl(self):
         self.step(('nestl',))
 
+    @rule(k=hst.sampled_from(['freshl', 'freshd', 'rows']))
+    def fresh(self, k):
+        self.step((k,))
+
     @rule()
     def sortd(self):
         self.step(('sortd',))
@@ -560,7 +583,9 @@ def run_job(job):
     if job[0] == 'dfs':
         _, init_i, k, depth = job
         L, Dd = INITS[init_i]
-        dfs(State(L, Dd), depth, [], INITS[init_i], st, first_ops=[ALPHABET[k]])
+        st0 = State(L, Dd)
+        st0.cached = init_i == 1        # the non-empty initial state runs on the parser with a parse cache
+        dfs(st0, depth, [], INITS[init_i], st, first_ops=[ALPHABET[k]])
         return st
     _, seed, n, steps = job
     run_machine(seed, n, steps, st)
